@@ -3,7 +3,7 @@
    Meta.set_user_defined_metadata / _get_meta_value_full as REPAIRED by fixes/F12 and fixes/F33; [set_meta_pinned] and
    [get_et_pinned] mirror the pinned code), on top of Codec.v. *)
 From Coq Require Import List ZArith NArith. Import ListNotations.
-Require Import Codec Typed Typedproof.
+Require Import Codec Typed Typeddecproof Typedproof.
 
 (* every carrier (writer s, compatible reader g), every value of the domain: what is read back is an equal value of the
    corresponding type (bool -> bool, int/float/Decimal -> numerically equal int or Decimal, str -> str, datetime -> same datetime
@@ -19,6 +19,11 @@ Theorem C06_lexical : forall (s : setk) (v : pyval) (e : elem),
   in_domain_for s v = true -> lexical_claimed v = true -> model_set s v = Ok e -> elem_lexical (is_meta s) e = true.
 Proof. exact lexical_lemma. Qed.
 Print Assumptions C06_lexical.
+
+(* CPython's Decimal(str(d)) == d, on the model: every finite Decimal, scientific notation included *)
+Theorem C06_decimal_text_roundtrip : forall d : dec, dec_of_text (str_of_dec d) = Some d.
+Proof. exact dec_text_roundtrip_lemma. Qed.
+Print Assumptions C06_decimal_text_roundtrip.
 
 (* the domain is not empty at its corners *)
 Example C06_example :
